@@ -236,16 +236,13 @@ def installRun : List Op := forcedRun ++ [.restart 2, .sync 2, .publish 2, .appl
 theorem installRun_loses :
     (run (boot 3 [6, 6, 6]) installRun).bind (fun s => readB s 2 1) = some (none, some 1, true) := by decide
 
-/-- the start-up replay races with the commit loop (startRaftNode starts `readCommitFromRaft` before
-the caller runs `readReplayForReplication`): node 1 restarts holding entry 5 (key 1 := 10) for the
-replay, learns and applies entry 6 (key 1 := 11) first, then the replay puts 10 back -/
-def replayRaceRun : List Op := [
-  .raftLead 0, .commit 0 [0, 1, 2], .propose 0 (.write 1 10 0) 60, .commit 0 [0, 1, 2], .sync 1, .kill 1,
-  .propose 0 (.write 1 11 0) 60, .commit 0 [0, 2],
-  .restartLate 1, .sync 1, .publish 1, .apply 1 false true, .replayLate 1]
-
-theorem replayRaceRun_stale :
-    (run (boot 3 [6, 6, 6]) replayRaceRun).bind (fun s => readB s 1 1) = some (some 10, some 11, true) := by decide
+/-- The start-up replay cannot race with the commit loop: `startCommitLoop` applies nothing before
+the caller has applied the replay (regenerated fact `commitLoopAfterReplay`), so the model's racy
+restart (replayed entries applied after newer ones - the code as it was, see the fixed finding
+replay_races_with_commit_loop) is not a step any more. -/
+theorem restart_replay_not_racy (s : State) (n : Nat) :
+    step s (.restartLate n) = none ∧ step s (.replayLate n) = none := by
+  simp [step, doRestartLate, doReplayLate, commitLoopAfterReplay]
 
 theorem minority_loss_readable_full_fails : ¬ minority_loss_readable_full := by
   intro h
